@@ -153,12 +153,18 @@ def splitSymbolsAux : Str → Str → List Str
 
 def splitSymbols (s : Str) : List Str := splitSymbolsAux s []
 
-def locAttrs (l : Loc) : Str :=
-  (if l.origFile ≠ l.file then attr "origfile" l.origFile else []) ++
-  attr "file" l.file ++
-  attr "line" (intDec (if l.line < 0 then 0 else l.line)) ++
-  attr "column" (natDec l.column) ++
-  (if l.info ≠ [] then attr "info" (fixInvalidChars l.info) else [])
+/-- the attributes a `PushAttribute` sequence writes: (name, condition of the `if` around the call, value passed) -/
+def present (t : List (String × Bool × Str)) : List (String × Str) :=
+  (t.filter (fun x => x.2.1)).map (fun x => (x.1, x.2.2))
+
+def locAttrTable (l : Loc) : List (String × Bool × Str) :=
+  [("origfile", l.origFile ≠ l.file, l.origFile),
+   ("file", true, l.file),
+   ("line", true, intDec (if l.line < 0 then 0 else l.line)),
+   ("column", true, natDec l.column),
+   ("info", l.info ≠ [], fixInvalidChars l.info)]
+
+def locAttrs (l : Loc) : Str := (present (locAttrTable l)).flatMap (fun p => attr p.1 p.2)
 
 /-- OpenElement("location") … CloseElement inside `<error>` (printer depth 3) -/
 def locXml (l : Loc) : Str := '\n' :: (spaces 12 ++ "<location".toList ++ locAttrs l ++ "/>".toList)
@@ -166,18 +172,20 @@ def locXml (l : Loc) : Str := '\n' :: (spaces 12 ++ "<location".toList ++ locAtt
 def symXml (s : Str) : Str :=
   '\n' :: (spaces 12 ++ "<symbol>".toList ++ printString true s ++ "</symbol>".toList)
 
-def errAttrs (f : Finding) : Str :=
-  attr "id" f.id ++
-  (if f.guideline ≠ [] then attr "guideline" f.guideline else []) ++
-  attr "severity" (sevStr f.severity) ++
-  (if f.classification ≠ [] then attr "classification" f.classification else []) ++
-  attr "msg" (fixInvalidChars f.shortMsg) ++
-  attr "verbose" (fixInvalidChars f.verboseMsg) ++
-  (if f.cwe ≠ 0 then attr "cwe" (natDec f.cwe) else []) ++
-  (if f.hash ≠ 0 then attr "hash" (natDec f.hash) else []) ++
-  (if f.inconclusive then attr "inconclusive" "true".toList else []) ++
-  (if f.file0 ≠ [] then attr "file0" f.file0 else []) ++
-  (if f.remark ≠ [] then attr "remark" (fixInvalidChars f.remark) else [])
+def errAttrTable (f : Finding) : List (String × Bool × Str) :=
+  [("id", true, f.id),
+   ("guideline", f.guideline ≠ [], f.guideline),
+   ("severity", true, sevStr f.severity),
+   ("classification", f.classification ≠ [], f.classification),
+   ("msg", true, fixInvalidChars f.shortMsg),
+   ("verbose", true, fixInvalidChars f.verboseMsg),
+   ("cwe", f.cwe ≠ 0, natDec f.cwe),
+   ("hash", f.hash ≠ 0, natDec f.hash),
+   ("inconclusive", f.inconclusive, "true".toList),
+   ("file0", f.file0 ≠ [], f.file0),
+   ("remark", f.remark ≠ [], fixInvalidChars f.remark)]
+
+def errAttrs (f : Finding) : Str := (present (errAttrTable f)).flatMap (fun p => attr p.1 p.2)
 
 /-- children in output order: the call stack back to front, then the symbols -/
 def children (f : Finding) : Str :=
@@ -416,26 +424,16 @@ def wf (doc : Str) : Bool := (readXml doc).isSome
 
 /-! ## what `toXML` is meant to carry -/
 
-def optAttr (present : Bool) (name : String) (v : Str) : List (Str × Str) :=
-  if present then [(name.toList, v)] else []
-
-def sanitizeLoc (l : Loc) : List (Str × Str) :=
-  optAttr (l.origFile ≠ l.file) "origfile" (cstr l.origFile) ++
-  [("file".toList, cstr l.file), ("line".toList, intDec (if l.line < 0 then 0 else l.line)),
-   ("column".toList, natDec l.column)] ++
-  optAttr (l.info ≠ []) "info" (fixInvalidChars l.info)
+/-- name and value (as a `const char*` consumer sees it) of the attributes written -/
+def carried (t : List (String × Bool × Str)) : List (Str × Str) :=
+  (present t).map (fun p => (p.1.toList, cstr p.2))
 
 /-- the data of a finding as the XML report documents it: messages, remark and location info with
-    non-printable bytes written as `\ooo`, every other string as it is (up to its first NUL byte) -/
+    non-printable bytes written as `\\ooo`, every other string as it is (up to its first NUL byte);
+    optional attributes only when set; locations last-to-first; one `<symbol>` per line of the symbol names -/
 def sanitize (f : Finding) : XErr :=
-  { attrs :=
-      [("id".toList, cstr f.id)] ++ optAttr (f.guideline ≠ []) "guideline" (cstr f.guideline) ++
-      [("severity".toList, sevStr f.severity)] ++ optAttr (f.classification ≠ []) "classification" (cstr f.classification) ++
-      [("msg".toList, fixInvalidChars f.shortMsg), ("verbose".toList, fixInvalidChars f.verboseMsg)] ++
-      optAttr (f.cwe ≠ 0) "cwe" (natDec f.cwe) ++ optAttr (f.hash ≠ 0) "hash" (natDec f.hash) ++
-      optAttr f.inconclusive "inconclusive" "true".toList ++ optAttr (f.file0 ≠ []) "file0" (cstr f.file0) ++
-      optAttr (f.remark ≠ []) "remark" (fixInvalidChars f.remark)
-    locs := f.stack.reverse.map sanitizeLoc
+  { attrs := carried (errAttrTable f)
+    locs := f.stack.reverse.map (fun l => carried (locAttrTable l))
     syms := (splitSymbols f.symbols).map cstr }
 
 /-- a string `toXML` writes *unsanitised* into an attribute survives: no C0 control byte, valid UTF-8 -/
